@@ -6,6 +6,7 @@ duplicates are part of what is compared.
 Schema content (the AST of the schema library) is projected away except: notation, the
 [tokenType, type] of the root node, the regex source, usedUserTypes / usedUserEnums.
 """
+import re
 import json
 
 from .model import ApiModel, UrlBlock, HttpMethod, RpcUrl, Schema
@@ -45,7 +46,10 @@ def tag_name(title):
 def norm_annotation(a):
     if a is None:
         return None
-    a = " ".join(a.split())
+    # catalog.Annotation: strings.TrimSpace (Unicode White_Space at both ends) and every run of RE2's \s - which is
+    # [\t\n\f\r ] and nothing else - becomes one space; a no-break or ideographic space inside the text is content
+    a = a.strip()
+    a = re.sub(r"[\t\n\f\r ]+", " ", a)
     return a or None
 
 
